@@ -44,7 +44,7 @@ func c02Values() []opVal {
 		{Name: "minint", Node: func() *rt.Node {
 			return rt.Paren(rt.Bin("-", rt.Int(-math.MaxInt64), rt.Int(1)))
 		}, Field: int64(math.MinInt64), FieldOK: true},
-		f("0.0", 0), f("0.5", 0.5), f("-1.5", -1.5), f("2.0", 2), f("1e308", 1e308), f("2^53.0", 9007199254740992),
+		f("0.0", 0), f("0.5", 0.5), f("-1.5", -1.5), f("2.0", 2), f("1e308", 1e308), f("2^53.0", 9007199254740992), f("2^63.0", 9223372036854775808), f("-2^63.0", -9223372036854775808),
 		f("inf", math.Inf(1)), f("nan", math.NaN()),
 		s(""), s("a"), s("ab"), s("1"),
 		lit("[]", func() *rt.Node { return rt.List() }, nil, false),
@@ -64,9 +64,10 @@ const (
 	srcLit = iota
 	srcVar
 	srcField
+	srcRetyped // a point field that held a value of another type and was overwritten by the script
 )
 
-var srcNames = []string{"literal", "variable", "field"}
+var srcNames = []string{"literal", "variable", "field", "re-typed field"}
 
 type c02Case struct {
 	Form string `json:"form"` // bin | asg | un | tree
@@ -104,6 +105,25 @@ func c02Build(c c02Case, vals []opVal) (p *Prog, expectLoadErr bool, ok bool) {
 		}
 		p.Point.Fields["f1"] = lv.Field
 		p.Point.Fields["f2"] = rv.Field
+		le, re = rt.Id("f1"), rt.Id("f2")
+	case srcRetyped:
+		if !lv.FieldOK || (c.Form != "un" && !rv.FieldOK) || lv.Field == nil || rv.Field == nil {
+			return nil, false, false
+		}
+		other := func(v any) any {
+			switch v.(type) {
+			case string:
+				return int64(7)
+			case int64:
+				return 2.5
+			case float64:
+				return true
+			}
+			return "old"
+		}
+		p.Point.Fields["f1"] = other(lv.Field)
+		p.Point.Fields["f2"] = other(rv.Field)
+		prelude = append(prelude, rt.Call("add_key", rt.Id("f1"), lv.Node()), rt.Call("add_key", rt.Id("f2"), rv.Node()))
 		le, re = rt.Id("f1"), rt.Id("f2")
 	}
 	var body []*rt.Node
@@ -317,7 +337,7 @@ func c02TreeRun(w *run.Worker, d dctx, k int, natoms int) {
 func c02Run(w *run.Worker) {
 	vals := c02Values()
 	// (A) the complete operator table
-	for src := srcLit; src <= srcField; src++ {
+	for src := srcLit; src <= srcRetyped; src++ {
 		for _, op := range c02BinOps {
 			for l := range vals {
 				for r := range vals {
@@ -383,8 +403,8 @@ func init() {
 	run.Register(&run.Check{
 		ID:    "C02",
 		Level: "model_checking",
-		Rule: "(A) every operator (14 binary incl. in/&&/||, 5 compound assignments on a variable, a list element and a nested map element, 3 unary) x every ordered pair of a 31-value set covering all operand classes " +
-			"x operand source {literal, variable, point field}; (B) every expression tree with <=2 (quick; 3 with 2 atoms) / <=3 (thorough, 6 atoms) binary operators over 8 atoms with every leaf wrapped in the probe; " +
+		Rule: "(A) every operator (14 binary incl. in/&&/||, 5 compound assignments on a variable, a list element and a nested map element, 3 unary) x every ordered pair of a 33-value set covering all operand classes (incl. the floats +-2^63 next to the int64 extremes) " +
+			"x operand source {literal, variable, point field, point field that held another type and was overwritten by add_key}; (B) every expression tree with <=2 (quick; 3 with 2 atoms) / <=3 (thorough, 6 atoms) binary operators over 8 atoms with every leaf wrapped in the probe; " +
 			"each program is run on the real engine and on the reference interpreter; distinct = distinct real outcomes (trace, point, error flag)",
 		Assumptions: []string{
 			"pinned cells (bool acts as 0/1, deep equality of collections, RHS of an assignment evaluated before index keys) follow the repository's tests and both interpreters",
